@@ -11,17 +11,27 @@ import oracles
 LEVEL = "proof"
 
 
-def retained(g, pre, roots, opaque_out=None):
+def retained(g, pre, roots, opaque_out=None, walked_out=None):
     """(everything retained, the part of it retained in the role of a manifest): closure of the roots over
-    references, plus (recursively) the artifacts listed as referrers of manifests retained as manifests"""
+    references, plus (recursively) the artifacts listed as referrers of manifests retained as manifests.
+    walked_out collects the manifests reached only through the list of manifests of a body that is image and index at once:
+    the registry never recorded them as children (the body was pushed as an image), so nothing promises that they stay
+    addressable by digest; their bytes, what those reference, and their referrers are retained like those of any other"""
     R, RM = set(), set()
+    walked = set()
     work = list(roots)
     while work:
-        d = work.pop()
+        x = work.pop()
+        w_ = isinstance(x, tuple)
+        d = x[0] if w_ else x
         if d in RM:
+            if not w_:
+                walked.discard(d)
             continue
         RM.add(d)
         R.add(d)
+        if w_:
+            walked.add(d)
         m = g["man"].get(d)
         if pre["blob"].get(d) != 200:
             continue            # its own bytes are gone: it references nothing and its referrers follow the dangling policy
@@ -29,15 +39,19 @@ def retained(g, pre, roots, opaque_out=None):
             work.append(a)
         if m:
             for r in m["refs"]:
-                if m["kind"] == "index" and r not in (m.get("opaque") or []):
+                if r in (m.get("kids") or []):
+                    work.append((r,))
+                elif m["kind"] == "index" and r not in (m.get("opaque") or []):
                     # children are manifests (unless listed under a media type that is not a manifest type); one listed under the
                     # media type of the other kind of manifest ("mistyped") is a manifest all the same: what it references is what
                     # its own bytes reference
-                    work.append(r)
+                    work.append((r,) if w_ else r)
                 else:
                     R.add(r)                # config and layers are plain blobs, whatever else their bytes are
                     if m["kind"] == "index" and opaque_out is not None:
                         opaque_out.add(r)   # an index entry of another media type: kept as a blob, but it is an entry of the walk
+    if walked_out is not None:
+        walked_out |= walked
     return R, RM
 
 
@@ -102,9 +116,10 @@ def oracle(ctx, case, io):
             roots += [d for d in sorted(rstate[k][1]) if d in gg["man"] and pre["man"].get(d, (0,))[0] == 200 and not gg["man"][d].get("subject") and not orphan(d)]
         if not dflt(pol.get("untagged"), False):
             roots += [d for d in pre["man"] if pre["man"][d][0] == 200 and d in gg["man"] and not gg["man"][d].get("subject") and not orphan(d)]
-        R, RM = retained(gg, pre, roots)
+        WO = set()
+        R, RM = retained(gg, pre, roots, None, WO)
         for d in sorted(R):
-            if lost(d) or (d in RM and mlost(d)):
+            if lost(d) or (d in RM and d not in WO and mlost(d)):
                 sig = "C05:child-of-index-listed-as-image" if (not lost(d) and under_index_listed_as_image(d)) else \
                     ("C05:opaque-child-not-a-manifest" if (not lost(d) and opaque_listed(d)) else "C05:retained-removed")
                 ctx.violation("collection removed %s, referenced (transitively) by a retained manifest (tagged, young, or untagged with untagged collection off) or a referrer of one" % d[:19],
